@@ -12,6 +12,7 @@ import (
 	"os/exec"
 	"path/filepath"
 	"strings"
+	"syscall"
 
 	"verif/internal/mon"
 )
@@ -34,6 +35,12 @@ func main() {
 	}
 	if os.Getenv("VERIF_SUPERVISED") == "" {
 		os.Exit(supervise(os.Args[1]))
+	}
+	if os.Args[1] != "C14" { // (the race-detector build needs a far larger address space)
+		// a library change that makes some loop allocate without bound must end in the Go runtime's own
+		// "out of memory" (reported by the supervisor) and not in the kernel's OOM killer
+		lim := uint64(24 << 30)
+		syscall.Setrlimit(syscall.RLIMIT_AS, &syscall.Rlimit{Cur: lim, Max: lim})
 	}
 	m := mon.New(os.Args[1])
 	f(m)
